@@ -1297,6 +1297,9 @@ pub fn compare(ch: &Chooser, case: &RCase, script: &Script, got: &Tr, how: &dyn 
         });
     }
     if want.msgs != got.msgs {
+        if std::env::var_os("C16_DEBUG").is_some() {
+            eprintln!("MSGDIFF {} {}: sync={:?} async={:?}", case.name, sname, want.msgs, got.msgs);
+        }
         ch.tag("error-message-differs");
     }
     if !want.msgs.is_empty() {
